@@ -401,6 +401,203 @@ def zero_weight_regular_ob(cls):
               f"{A_}::{cls}.integrate_log_conditional_y", group="zero-weights")
 
 
+def relu_logdet_ob():
+    """rectified-linear link: k_func is the expectation of the tangent upper bound of ln(1 + relu(h)) on the half line h >= 0
+    (ln(1+h) <= ln(1+omega) + (h - omega)/(1+omega), exact zero for h < 0), and the variational point is E[relu(h)]:
+       k = Phi(z) ln(1+omega) + (m Phi(z) + s phi(z) - Phi(z) omega) / (1+omega),   omega_dagger = m Phi(z) + s phi(z),
+    h ~ N(m, s^2) under each prior component, z = m / s (one-sided truncated-normal moments, written from the textbook).
+    Found missing by the mutation sweep (`Zh * c0 -> Zh / c0` in k_func was reported by no check)."""
+    cls = "HeteroscedasticReLUConditional"
+
+    def run():
+        from ..dim import D
+        from ..intrinsics import elementwise_inf
+        I, c, px, y, Wi, ai, om, w0, w, sizes = _bound_setup(cls)
+        Eh, Eh2 = _moments_h(px, w, w0)
+        s2 = nf.einsum("d,nde,e->n", w, px.f["Sigma"], w)
+        sd = nf.elementwise("Sqrt", s2)
+        z = nf.mul(Eh, nf.elementwise("Sqrt", nf.elementwise("Recip", s2)))
+        Ph, ph = elementwise_inf("Phi", z), elementwise_inf("phi", z)
+        relu_mean = nf.add(nf.mul(Eh, Ph), nf.mul(sd, ph))
+        one_om = nf.add(om, nf.const(1))
+        ref = nf.add(nf.mul(Ph, nf.elementwise("Log", one_om)), nf.mul(nf.elementwise("Recip", one_om), nf.add(relu_mean, nf.mul(Ph, om), -1)))
+        d = []
+        k = I.call_method(c, "k_func", [px, Wi, om])
+        d += [("k_func",) + tuple(q) for q in nf.diff(k, ref, what="k_func")[:4]]
+        od = I.call_method(c, "_get_omega_dagger", [px, Wi])
+        d += [("omega_dagger",) + tuple(q) for q in nf.diff(od, relu_mean, what="omega_dagger")[:4]]
+        return d, dict(funcs=funcs_of(I))
+    return Ob(f"bound-logdet/{cls}", run,
+              "k_func == E_q[1(h>=0) (ln(1+omega) + (h - omega)/(1+omega))] and _get_omega_dagger == E_q[relu(h)] in the standard normal cdf / pdf of z = m/s",
+              f"{A_}::{cls}.k_func", group="bound-logdet")
+
+
+def quadratic_assembly_ob(cls):
+    """get_lb_quadratic_term(p_x, y)[n] == E_n[(y_n - Mx - b)' (AA')^-1 (y_n - Mx - b)] - sum_k T_k[n], where T_k is what
+    get_lb_heteroscedastic_term_i returns for noise unit k (decided separately: exact for the step link, tangent bounds for the others).
+    The per-unit term is replaced by an opaque array here, so this obligation reads the assembly only: the homoscedastic expectation,
+    the sign and the sum over units.  Found missing by the mutation sweep (a dropped minus in `A_mat=-projected_M` was reported by no check)."""
+    def run():
+        from ..nf import Val
+        I, c, px, y, Wi, ai, om, w0, w, (Dy, Dk, Da, N, Dx) = _bound_setup(cls)
+        U = nf.atom("U", [Dx + 1, N])
+
+        def het(I_, selfobj, args, kw):
+            # stand-in for the per-unit term, linear in the unit's weight row (called once under vmap on the generic unit): [1, N]
+            Wk = kw["W_i"] if "W_i" in kw else args[2]
+            return nf.expand_dims(nf.einsum("d,dn->n", Wk, U), [None, "k"])
+        owner = model.load().find_method(cls, "get_lb_heteroscedastic_term_i")[0]
+        I.hooks[(owner, "get_lb_heteroscedastic_term_i")] = het
+        got = I.call_method(c, "get_lb_quadratic_term", [px, y])
+        mu, S = px.f["mu"], px.f["Sigma"]
+        M1 = Val(c.f["M"].axes[1:], c.f["M"].terms)
+        b1 = Val(c.f["b"].axes[1:], c.f["b"].terms)
+        L1 = Val(c.f["Lambda"].axes[1:], c.f["Lambda"].terms)
+        r = nf.add(nf.add(y, nf.expand_dims(b1, [None, "k"]), -1), nf.einsum("yx,nx->ny", M1, mu), -1)
+        ref = nf.add(nf.add(nf.einsum("ny,yz,nz->n", r, L1, r), nf.einsum("yz,yx,nxv,zv->n", L1, M1, S, M1)), nf.einsum("kd,dn->n", c.f["W"], U), -1)
+        ref = nf.expand_dims(ref, [None, "k"])          # the per-unit terms are rows [1, N]: the library's result is [1, N]
+        d = nf.diff(got, ref, what="lb quadratic term")
+        return d, dict(funcs=funcs_of(I))
+    return Ob(f"quadratic-assembly/{cls}", run,
+              "get_lb_quadratic_term == E_n[(y_n - Mx - b)' Lambda (y_n - Mx - b)] (Wick) - sum over noise units of the per-unit term (opaque here, decided by the lb-quadratic / bound-factor obligations)",
+              f"{A_}::{cls}.get_lb_quadratic_term", group="quadratic-assembly")
+
+
+def loglik_assembly_ob(cls):
+    """integrate_log_conditional_y(p_x, y)[n] == -1/2 (Q[n] + L[n] + Dy ln 2pi) with Q = get_lb_quadratic_term, L = get_lb_log_det
+    (both decided separately and opaque here): the Gaussian log-density assembled from its bounded parts, one value per observation."""
+    def run():
+        from ..nf import Val
+        from ..dim import D, LOG2PI
+        I, c, px, y, Wi, ai, om, w0, w, (Dy, Dk, Da, N, Dx) = _bound_setup(cls)
+        Q, L = nf.atom("Q", [1, N]), nf.atom("L", [N])
+        prog = model.load()
+        I.hooks[(prog.find_method(cls, "get_lb_quadratic_term")[0], "get_lb_quadratic_term")] = lambda I_, o, a, k: Q
+        I.hooks[(prog.find_method(cls, "get_lb_log_det")[0], "get_lb_log_det")] = lambda I_, o, a, k: L
+        got = I.call_method(c, "integrate_log_conditional_y", [px, y])
+        Q1 = Val(Q.axes[1:], Q.terms)
+        ref = nf.scale(nf.add(nf.add(Q1, L), nf.const(D(Dy) * LOG2PI)), D(-1) / 2)
+        return nf.diff(got, ref, what="integrate_log_conditional_y"), dict(funcs=funcs_of(I))
+    return Ob(f"loglik-assembly/{cls}", run, "integrate_log_conditional_y == -1/2 (quadratic term + log-determinant term + Dy ln 2pi), one value per observation",
+              f"{A_}::{cls}.integrate_log_conditional_y", group="quadratic-assembly")
+
+
+def logdet_assembly_ob(cls):
+    """get_lb_log_det(p_x)[n] == ln det AA' + sum_k k_func(p_x, W_k, omega_k)[n] with omega_k = _get_omega_dagger(p_x, W_k): the assembly over the
+    noise units, with k_func and the variational point replaced by stand-ins that are linear in the unit's weight row (decided by bound-logdet)."""
+    def run():
+        from ..nf import Val
+        I, c, px, y, Wi, ai, om, w0, w, (Dy, Dk, Da, N, Dx) = _bound_setup(cls)
+        U, G, V = nf.atom("U", [Dx + 1, N]), nf.atom("G", [Dx + 1, N]), nf.atom("V", [N])
+        prog = model.load()
+        arg = lambda a, k, name, pos: k[name] if name in k else a[pos]
+        od = lambda I_, o, a, k: nf.einsum("d,dn->n", arg(a, k, "W_i", 1), G)
+        I.hooks[(prog.find_method(cls, "_get_omega_dagger")[0], "_get_omega_dagger")] = od
+        I.hooks[("approximate_conditional", "_get_omega_dagger")] = od            # static method: resolved as a plain function of the module
+        I.hooks[(prog.find_method(cls, "k_func")[0], "k_func")] = \
+            lambda I_, o, a, k: nf.add(nf.einsum("d,dn->n", arg(a, k, "W_i", 1), U), nf.mul(arg(a, k, "omega_dagger", 2), V))
+        got = I.call_method(c, "get_lb_log_det", [px])
+        W = c.f["W"]
+        lds = c.f["ln_det_Sigma"]
+        lds0 = Val([], lds.terms) if (not lds.axes or not lds.axes[0]) else lds
+        ref = nf.add(nf.add(nf.einsum("kd,dn->n", W, U), nf.mul(nf.einsum("kd,dn->n", W, G), V)), nf.expand_dims(lds0, []) if not lds0.axes else lds0)
+        return nf.diff(got, ref, what="get_lb_log_det"), dict(funcs=funcs_of(I))
+    return Ob(f"logdet-assembly/{cls}", run, "get_lb_log_det == ln det AA' + sum over noise units of k_func at that unit's variational point _get_omega_dagger (both opaque here)",
+              f"{A_}::{cls}.get_lb_log_det", group="quadratic-assembly")
+
+
+def coherence_square_ob(cls):
+    """The coherence clause in the case where the library's closed-form update IS right: square invertible A with every column a noise unit
+    (Da = Dk = Dy).  Stated axioms: (AA')^-1 = A^-T A^-1 and det(A (I + D) A') = det(AA') prod_k (1 + D_k) for a general-inverse pair
+    (A, A^-1).  On today's tree this is PROVED, while the generic context Da >= Dy is the known finding F10 - so an edit of
+    get_conditional_cov that breaks the square case as well is a *different* violation and is reported (the mutation sweep showed that a
+    sign flip in the Woodbury line was absorbed by the F10 entry)."""
+    def run():
+        nf.ST.generic_nonzero = True
+        I = build.new_interp()
+        Dy, Dx, N = sym("Dy"), sym("Dx"), sym("N")
+        A = nf.atom("A(c)", [1, Dy, Dy])
+        c = I.construct(cls, dict(M=nf.atom("M(c)", [1, Dy, Dx]), b=nf.atom("b(c)", [1, Dy]), A=A, W=nf.atom("W(c)", [Dy, Dx + 1])))
+        Ai = nf.ginverse(A)
+        c.f["Lambda"] = nf.einsum("rba,rbc->rac", Ai, Ai)
+        xs = build.points("xs", N, Dx)
+        q = I.call_method(c, "condition_on_x", [xs])
+        S, L, lds = q.f["Sigma"], q.f["Lambda"], q.f["ln_det_Sigma"]
+        prod = nf.einsum("rab,rbc->rac", S, L, what="Sigma*Lambda")
+        eye = nf.expand_dims(nf.eye(S.shape[-1]), [None])
+        d = [("Sigma*Lambda!=I",) + tuple(x) for x in nf.diff(prod, nf.add(nf.scale(prod, 0), eye), what="Sigma*Lambda")[:4]]
+        Dlink = I.call_method(c, "link_function", [I.call_method(c, "linear_layer", [xs])])
+        c_lds = c.f["ln_det_Sigma"]
+        c_lds = nf.Val([], c_lds.terms) if (c_lds.axes and not c_lds.axes[0]) else c_lds
+        ref = nf.add(nf.sum_axis(nf.elementwise("Log", nf.add(Dlink, nf.const(1))), 1, False), c_lds)
+        d += [("ln_det_Sigma!=LnDet(Sigma)",) + tuple(x) for x in nf.diff(lds, ref, what="ln_det_Sigma")[:4]]
+        return d, dict(funcs=funcs_of(I))
+    return Ob(f"coherent-square/{cls}", run,
+              "square invertible A, all columns noise units: Sigma_y(x) Lambda_y(x) = I and ln det Sigma_y(x) = ln det AA' + sum_k ln(1 + link(h_k)) "
+              "(axioms (AA')^-1 = A^-T A^-1, det multiplicativity); the case outside the known finding F10",
+              f"{A_}::HeteroscedasticConditional.get_conditional_cov", group="coherent-square")
+
+
+def bound_integral_ob(cls):
+    """exp / cosh-1 links: the per-unit quadratic term  T = int f(h) phi(h; omega) (a'(y - Mx - b))^2 p(x) dx  is assembled correctly from Gaussian
+    measures: with phi the tangent-bound factor (decided by bound-factor), f(h) phi = phi (exp link: the sigmoid bound already contains e^h / (1+e^h))
+    resp. f = cosh(h) - 1 = e^h/2 + e^-h/2 - 1 (cosh-1 link).  Reference per Gaussian measure m = p(x) phi(h) e_s(h):
+        int g^2 dm = Z_m ((c - a'M mu_m)^2 + a'M Sigma_m M'a),   g = c - a'M x,  c = a'(y - b),
+    with Z_m, mu_m = Sigma_m nu_m, Sigma_m read from the measure object that the (C01 / C04-proved) hadamard product returns.  Found missing by the
+    mutation sweep (a dropped minus in `A_mat=-a_projected_M` of the cosh-1 assembly was reported by no check)."""
+    def run():
+        from ..nf import Val
+        from ..dim import LOG2
+        from ..interp import Interp
+        from ..core import Refuted
+        I, c, px, y, Wi, ai, om, w0, w, (Dy, Dk, Da, N, Dx) = _bound_setup(cls)
+        made, orig = [], Interp.construct
+
+        def cons(self, clsname, kw, site=None):
+            o = orig(self, clsname, kw, site)
+            made.append(o)
+            return o
+        Interp.construct = cons
+        try:
+            got = I.call_method(c, "_lower_bound_integrals", [px, y, Wi, ai, om])
+        finally:
+            Interp.construct = orig
+        F = [o for o in made if o.cls == "OneRankFactor"]
+        if not F:
+            raise Refuted("no OneRankFactor (Gaussian-form tangent bound) is constructed", f"{A_}::{cls}._lower_bound_integrals")
+        lb = I.call_method(px, "hadamard", [F[0]], dict(update_full=True))
+        M1, b1 = Val(c.f["M"].axes[1:], c.f["M"].terms), Val(c.f["b"].axes[1:], c.f["b"].terms)
+        cc = nf.add(nf.einsum("y,ny->n", ai, y), nf.einsum("y,y->", ai, b1), -1)
+        mt = nf.einsum("y,yx->x", ai, M1)
+
+        def Q(m):
+            Z = I.call_method(m, "integral", [])
+            S = m.f["Sigma"]
+            mu = nf.einsum("nab,nb->na", S, m.f["nu"])
+            r = nf.add(cc, nf.einsum("x,nx->n", mt, mu), -1)
+            return nf.mul(Z, nf.add(nf.mul(r, r), nf.einsum("x,nxz,z->n", mt, S, mt)))
+        if "Exp" in cls:
+            ref = Q(lb)
+        else:
+            wrow = nf.expand_dims(w, [None, "k"])
+            ep = I.construct("LinearFactor", dict(nu=wrow, ln_beta=nf.expand_dims(nf.add(w0, nf.const(LOG2), -1), [None])))
+            em = I.construct("LinearFactor", dict(nu=nf.neg(wrow), ln_beta=nf.expand_dims(nf.add(nf.neg(w0), nf.const(LOG2), -1), [None])))
+            mp = I.call_method(lb, "hadamard", [ep], dict(update_full=True))
+            mm = I.call_method(lb, "hadamard", [em], dict(update_full=True))
+            ref = nf.add(nf.add(Q(mp), Q(mm)), Q(lb), -1)
+        if not isinstance(got, Val):
+            raise Refuted(f"_lower_bound_integrals returns {type(got).__name__} (expected one array without compute_fourth_order)", f"{A_}::{cls}._lower_bound_integrals")
+        g = Val([a for a in got.axes if a], got.terms)
+        r = Val([a for a in ref.axes if a], ref.terms)
+        d = nf.diff(g, r, what="int f phi g^2 p dx")
+        if d and nf.zero_mod_recip(nf.add(g, r, -1)):
+            d = []
+        return d, dict(funcs=funcs_of(I))
+    return Ob(f"bound-integral/{cls}", run,
+              "_lower_bound_integrals == sum_s c_s Z_s ((c - a'M mu_s)^2 + a'M Sigma_s M'a) over the Gaussian measures p(x) phi(h) e_s(h) (exp: phi alone; cosh-1: e^h/2, e^-h/2, -1)",
+              f"{A_}::{cls}._lower_bound_integrals", group="bound-factor")
+
+
 def obligations(tier):
     obs = []
     for cls in CLASSES:
@@ -409,6 +606,7 @@ def obligations(tier):
         ob.group = "conditional"
         obs.append(ob)
         obs.append(coherence_ob(cls))
+        obs.append(coherence_square_ob(cls))
     obs.append(step_logdet_ob())
     obs.append(step_quadratic_ob())
     obs.append(step_quadratic_general_ob())
@@ -418,18 +616,25 @@ def obligations(tier):
         obs.append(bound_factor_ob(cls))
     for cls in ("HeteroscedasticExpConditional", "HeteroscedasticCoshM1Conditional"):
         obs.append(bound_logdet_ob(cls))
+        obs.append(bound_integral_ob(cls))
         obs.append(zero_weight_regular_ob(cls))
+    obs.append(relu_logdet_ob())
+    for cls in CLASSES:
+        obs.append(quadratic_assembly_ob(cls))
+        obs.append(loglik_assembly_ob(cls))
+        if "Heaviside" not in cls:          # the step link overrides get_lb_log_det with the exact expectation (lb-logdet)
+            obs.append(logdet_assembly_ob(cls))
     from .c20 import summary_ob
     obs += [summary_ob("normal_cdf"), summary_ob("normal_pdf")]      # the step / rectified-linear terms are stated in Phi / phi
     return obs
 
 
-FLOORS = {"group:conditional": 4, "group:coherent": 4, "group:lb-quadratic": 2, "group:bound-factor": 3, "group:bound-logdet": 2, "group:zero-weights": 2, "group:summary": 2}
+FLOORS = {"group:conditional": 4, "group:coherent": 4, "group:coherent-square": 4, "group:lb-quadratic": 2, "group:bound-factor": 5, "group:bound-logdet": 3, "group:quadratic-assembly": 11, "group:zero-weights": 2, "group:summary": 2}
 LEVEL = "other"
 EXPLANATION = ("PARTIAL: for all four link functions, condition_on_x has mean Mx+b and covariance AA' + A_k diag(link(Wx+w0)) A_k' (proved), and the coherence of the "
                "returned precision / log-determinant with that covariance is decided (refuted for generic Da >= Dy: known finding F10). Step link: the log-determinant term and the "
                "heteroscedastic quadratic term of integrate_log_conditional_y are proved exact (Dx = 1 and Dx > 1). Exp / cosh-1 / ReLU links: the Gaussian-form factors used for the "
                "quadratic term are proved to be the documented tangent bounds (Jaakkola-Jordan bound of the sigmoid, tangent of ln cosh in h^2, tangent of -ln(1+h)), k_func is the "
                "expectation of the tangent upper bound of ln(1+f(h)) and the variational parameter is its minimiser sqrt(E[h^2]) (exp, cosh-1). NOT decided: that these tangent "
-               "bounds are inequalities (classical convexity facts, trusted), the remaining assembly of the ReLU quadratic term (truncated moments of the tilted density), the fixed-point "
+               "bounds are inequalities (classical convexity facts, trusted; of the zero-gap clause only the structural part that no method on the exp / cosh-1 bound path builds the law of the linear predictor, singular at zero weights), the remaining assembly of the ReLU quadratic term (truncated moments of the tilted density), the fixed-point "
                "iteration (lax.while_loop) and the tightness limits.")
